@@ -450,6 +450,9 @@ top:
 		p.pos++
 		switch b {
 		case '\\':
+			if len(p.buf) <= p.pos {
+				goto fail
+			}
 			b = p.buf[p.pos]
 			p.pos++
 			switch b {
@@ -519,6 +522,9 @@ func (p *parser) readStr(term byte) string {
 		if b == '\\' {
 			return p.readEscStr(start, term)
 		}
+	}
+	if p.pos <= start || p.buf[p.pos-1] != term {
+		p.raise("string not terminated")
 	}
 	return string(p.buf[start : p.pos-1])
 }
